@@ -37,7 +37,7 @@ def _isclose(a, b, rel, abs_=0.0):
 def _okint(v: int, q: F) -> bool:
     """v is the largest integer not exceeding q 'to floating-point accuracy': the exact floor, or
     an integer within the rounding error of one float multiplication/division of size q."""
-    return v == math.floor(q) or abs(F(v) - q) <= max(F(1, 10**9), abs(q) * F(4, 10**16))
+    return v == math.floor(q) or abs(F(v) - q) <= max(F(1, 10**13), abs(q) * F(4, 10**16))
 
 
 def check_normal(case):
@@ -126,6 +126,14 @@ def check_normal(case):
 def _bern_cases(draw):
     prob = st.one_of(st.sampled_from([0.0, 1.0]), st.integers(0, 10).map(lambda k: k / 10),
                      st.integers(0, 100).map(lambda k: k / 100), st.floats(min_value=0.0, max_value=1.0))
+    n = draw(st.one_of(st.integers(1, 50), st.integers(51, 10**4)))
+    if draw(st.integers(0, 3)) == 0:
+        # p a little below / above a multiple of 1/n: far outside rounding error, but close
+        k = draw(st.integers(1, n))
+        delta = draw(st.sampled_from([1e-4, 1e-6, 1e-7, 1e-8, 1e-10, 1e-11]))
+        p_near = (k - delta) / n if draw(st.booleans()) or k == n else min((k + delta) / n, 1.0)
+        return dict(p=p_near, p1=draw(prob), p2=draw(prob), rho=draw(st.floats(min_value=-1, max_value=1)),
+                    n=n, seed=draw(st.integers(0, 2**31 - 1)))
     return dict(p=draw(prob), p1=draw(prob), p2=draw(prob), rho=draw(st.one_of(st.floats(min_value=-1, max_value=1),
                                                                               st.sampled_from([0.0, 1.0, -1.0, 0.5]))),
                 n=draw(st.one_of(st.integers(1, 50), st.integers(51, 10**4))), seed=draw(st.integers(0, 2**31 - 1)))
